@@ -292,3 +292,21 @@ CHECKS['C14'] = dict(
     assumptions=['TSan sees accesses that execute in an explored schedule; its shadow history is finite', 'weak-memory reorderings are outside the model: the happens-before analysis is what covers unsynchronised accesses'],
     budget={'quick': 420, 'thorough': 3000},
 )
+
+_WF = H('h_wfault.c', 'asan', tu_flags={'mtbl/writer.c': ['-Dwrite=vf_write']})
+CHECKS['C20'] = dict(
+    level=FE, engine='envshim',
+    technique='exhaustive enumeration of fault scripts for write(2): every outcome (full, EINTR, EINTR x3, short write of every length, EIO, ENOSPC, return 0) at every write call, all scripts with at most D deviations, on the real writer through a compile-time seam',
+    text='writer.c is compiled with write renamed to a harness function that answers every call from a script and records the byte stream. All scripts with at most D deviations (D=3 quick, 4 thorough) from "every write completes" are run on seven files (empty table, 1-3 data blocks, foreign prefix, none/lz4). Without a hard error the final bytes must equal the unfragmented output and every call must offer exactly the not-yet-accepted continuation of the file (no byte repeated or skipped). With a hard error the writer must stop on its assertion; mtbl_writer_destroy returning normally is a violation. The same scripts with a pool (the result-handler thread does the writing) run in forked children.',
+    jobs=[
+        dict(name='faults', spec=_WF, args=lambda tier: ['4' if tier == 'thorough' else '3']),
+        dict(name='faults-pooled', spec=_WF, args=lambda tier: ['2' if tier == 'thorough' else '1', 'pool']),
+    ],
+    states_key='states', transitions_key='transitions', traces_key='executions', evals_key='executions',
+    rule='one execution = one fault script on one file; signature = (outcome kind, call index, deviations before it)',
+    bounds={'quick': 'deviations <= 3 (pooled: <= 1); short lengths: all 1..n-1 for n<=64, else {1,2,n/2,n-2,n-1}',
+            'thorough': 'deviations <= 4 (pooled: <= 2)'},
+    nonzero=['executions', 'scripts_with_hard_error', 'short_write_deviations', 'eintr_deviations'],
+    assumptions=['writes are appends to one descriptor (the writer never seeks)', 'which assertion stops the process is not prescribed'],
+    budget={'quick': 300, 'thorough': 2400},
+)
